@@ -113,6 +113,15 @@ var mixedLists = map[string]struct {
 		"query Op { tools { label ... on Gizmo { stock } ... on Hammer { label heft } } }"}, [2]string{"B", "Gizmo"}},
 }
 
+// per fixture: queries selecting non-null fields that a lookup service supplies (for the fault-free runs over data in which
+// some entities are unknown to some services)
+var silentQueries = map[string][]string{
+	"tricky": {"query Op { foos { id must name } foo { must bar { must name } } }", "query Op { foos { items { must } must } }"},
+	"movies": {"query Op { movies { id title reviews { stars body author { name } } lead { name films { title } } } }",
+		"query Op { me { name films { id title } } reviews { stars movie { title year } } }", "query Op { topReview { body movie { title } author { films { title } name } } }"},
+	"shared": {"query Op { tools { label ... on Gizmo { weight stock twin { weight stock } } } }", "query Op { gizmo(id: \"1\") { stock weight twin { stock } } priced { price ... on Gizmo { weight } } }"},
+}
+
 func runProfile(cfg runCfg, prof string) error {
 	r := rand.New(rand.NewSource(cfg.seed))
 	sum := &summary{Property: strings.ToUpper(prof), Seed: cfg.seed, Features: map[string]int{}, CaseInputs: map[string]interface{}{}}
@@ -172,6 +181,12 @@ func runProfile(cfg runCfg, prof string) error {
 			do.plantBad = true
 			conforming = false
 		}
+		// nulls that no service reports: entities a lookup service does not know (it answers null for them, without an error),
+		// fault-free and with conforming data: non-null fields of such entities must still be found
+		silent := prof == "c02" && r.Intn(6) == 0
+		if silent {
+			do.plantBad, conforming, do.unknownProb, do.unknownAny = false, false, 0.4, true
+		}
 		big := (prof == "c02" || prof == "c05" || prof == "c01" || prof == "c04") && env.fx.Name == "movies" && r.Intn(8) == 0
 		if big {
 			// which ids share a batch is up to Go's map order, so only whole-document outcomes may depend on it:
@@ -199,6 +214,28 @@ func runProfile(cfg runCfg, prof string) error {
 			qo.recurAlias = false
 		}
 		q, vars, doc := env.genBoundedQuery(r, qo, 400)
+		if prof == "c14" && i < 2*len(hostilePool) && envs[0] != nil {
+			// every hostile string once as a literal and once as a variable on a field that an entity lookup resolves, with a
+			// second variable that only ANOTHER sub-request uses (and whose name the literals of the pool mention)
+			env = envs[0]
+			env.world.data = genData(r, env.fed, dataOpts{nullProb: 0, safeStrings: true})
+			h := hostilePool[i%len(hostilePool)]
+			if i < len(hostilePool) {
+				q = "query Op($v1: String, $v2: String) { echoRoot(s: $v1) movies { id echoArg(s: " + gqlQuote(h) + ") x: echoArg(s: $v2) } }"
+			} else {
+				q = "query Op($v1: String, $v2: String) { echoRoot(s: $v2) movies { id x: echoArg(s: $v1, l: [" + gqlQuote(h) + ", \"$v2\"]) } }"
+			}
+			vars = map[string]interface{}{"v1": hostilePool[(i+5)%len(hostilePool)], "v2": h}
+			doc, _ = loadQuery(env.gw.es.MergedSchema, q)
+			if doc == nil {
+				return fmt.Errorf("directed hostile query does not validate: %s", q)
+			}
+			sum.Features["every_hostile_string_on_a_lookup_field"]++
+		}
+		if sq, ok := silentQueries[env.fx.Name]; ok && silent && r.Intn(2) == 0 {
+			q, vars = sq[r.Intn(len(sq))], map[string]interface{}{}
+			doc, _ = loadQuery(env.gw.es.MergedSchema, q)
+		}
 		if prof == "c16" && doc != nil && r.Intn(3) == 0 && !strings.Contains(q, "...") {
 			// the namespace field once more under the same response key, through a fragment on Mutation, selecting another
 			// mutation: both selections are one field, and every mutation under it is to be delivered once
@@ -274,7 +311,7 @@ func runProfile(cfg runCfg, prof string) error {
 		env.world.faultFor = nil
 		var faults []faultSpec
 		var directed *[2]string // (service, lookup type) whose requests are to fail
-		if ml, ok := mixedLists[env.fx.Name]; ok && (prof == "c02" || prof == "c05") && !big && r.Intn(8) == 0 {
+		if ml, ok := mixedLists[env.fx.Name]; ok && (prof == "c02" || prof == "c05") && !big && !silent && r.Intn(8) == 0 {
 			// an interface/union list holding several concrete types, with a non-null field of ONE member type supplied by
 			// another service, which fails: the null must be found whichever member comes first in the list
 			q, vars = ml.q[r.Intn(len(ml.q))], map[string]interface{}{}
@@ -286,7 +323,10 @@ func runProfile(cfg runCfg, prof string) error {
 			directed = &ml.fail
 			sum.Features["mixed_abstract_list_with_failing_member_service"]++
 		}
-		if prof == "c05" || (prof == "c02" && r.Intn(3) > 0) || (prof == "c16" && r.Intn(2) == 0) || directed != nil {
+		if silent {
+			sum.Features["entities_unknown_to_a_service_without_faults"]++
+		}
+		if prof == "c05" || (prof == "c02" && !silent && r.Intn(3) > 0) || (prof == "c16" && r.Intn(2) == 0) || directed != nil {
 			// fault-free run first
 			run0, err := env.run(q, vars, hdr)
 			if err != nil {
